@@ -136,6 +136,42 @@ def r1_filter_dominance(ctx):
     callees = {facts.callee_name(t) for b, t in pm.calls()}
     ctx.ob(rule, pm.name, 'pawn generation includes en-passant generation', MGM + 'generate_en_passant_moves' in callees,
            found=sorted(c for c in callees if c and c.startswith(MGM))[:6], expected='generate_en_passant_moves')
+    # ... on EVERY path that returns: an early exit ("no pawn has a push or an ordinary capture") must not skip it - the en-passant capture is
+    # not among the ordinary targets.  Only a path that has established that a pawn set is empty may leave without it.
+    EP = MGM + 'generate_en_passant_moves'
+    own_h = {h for h in facts.only_through({pm.name}) if h != pm.name and facts.fns[h].kind != 'Closure'}
+    try:
+        pouts = Engine(facts, opaque={TGT + 'generate_pawn_move_targets', TGT + 'generate_pawn_attack_targets', MGM + 'expand_piece_targets', EP},
+                       readonly={CHESSMOVE + '::to_square', CHESSMOVE + '::from_square', CHESSMOVE + '::captures', PS + '::locate', BOARD + '::pieces'},
+                       max_paths=4000, inline_loops=own_h).run(pm.name)
+    except PathLimit:
+        pouts = None
+    skipped = []
+    n_ret = 0
+    pawn_d = facts.variant_discr(PIECE_ADT, 'Pawn')
+    for o in (pouts or []):
+        if o.kind != 'return':
+            continue
+        n_ret += 1
+        eps = [e for e in o.events if e[0] == 'call' and e[1] == EP]
+        if len(eps) == 1 and eps[0][2][0] == ('ref', ('der', ('p', 1))) and eps[0][2][1] == ('ref', ('der', ('p', 2))) and eps[0][2][2] == ('p', 3):
+            continue
+
+        def no_pawns(a, v):
+            loc = [s_ for s_ in subterms(a) if s_[0] == 'call' and s_[1] == PS + '::locate' and len(s_[2]) == 2
+                   and s_[2][1][0] == 'agg' and s_[2][1][3] == 'Pawn']
+            if not loc:
+                return False
+            if a[0] == 'call' and a[1].endswith('::is_empty'):
+                return is_true(v)
+            return v == 0 and a[0] in ('fld',)
+        if any(no_pawns(a, v) for a, v in o.conds):
+            continue
+        skipped.append([show_cond(c)[:90] for c in o.conds][-3:])
+    ctx.ob(rule, pm.name, 'every returning path of pawn generation runs en-passant generation on the same list, board and colour', pouts is not None and n_ret > 0 and not skipped,
+           found=skipped[:3], expected='generate_en_passant_moves(moves, board, color) before every return (except when a pawn set is empty)',
+           why='the en-passant capture is generated separately from the push / capture targets: a fast exit for "no ordinary pawn move" loses it, and with '
+               'it the only legal move of some positions')
     # generate_moves / cache path goes through generate_valid_moves: C02.R1
 
 
